@@ -22,6 +22,7 @@ func init() {
 		{ID: "E1.merge.result", Fn: "oidc.mergeAndMarshalClaims", P: []string{"registered", "extraClaims"}, Kind: "ret ok", Pat: "ret($buf.Bytes(), nil)", Max: 1,
 			Req: []string{"ok(json.NewEncoder($buf).Encode($registered))", "le(len($extraClaims), 0) || ok(json.NewEncoder($buf).Encode($merged))"}},
 		{ID: "E1.jwtreq.registered-last", Fn: "oidc.(*JWTTokenRequest).MarshalJSON", P: []string{"j"}, Kind: "call", Pat: "json.Unmarshal($b, &$j.private)", Max: 1,
+			Why: "the registered JSON is decoded over the private claims (registered wins); merging in the other direction lets stale custom copies replace iss/sub/aud/exp",
 			Req: []string{"def($b, json.Marshal(conv(_, $j)), 0)", "ok(json.Marshal(conv(_, $j)))", "neq(len($j.private), 0)"}},
 		{ID: "E1.unmarshal-multi.all-or-error", Fn: "oidc.unmarshalJSONMulti", P: []string{"data", "destinations"}, Kind: "backedge", Pat: "backedge($destinations)", Max: 1,
 			Req: []string{"inloop($dst, $destinations)", "ok(json.Unmarshal($data, $dst))"}},
